@@ -349,7 +349,8 @@ def run(ctx):
         ctx.floor('roots with a documented panic site (%s)' % cfg, n_doc, FLOOR_DOC_PANIC)
         ctx.floor('functions whose rustdoc must announce their panic (%s)' % cfg, n_rdoc, 125)
         ctx.control('documented from_slice length assert is seen (%s)' % cfg, control_from_slice)
-        if cfg.startswith('sse2'):
+        if cfg.startswith('sse2') and any('_mm_store_ps' in raw for raw in F._body_raw.values()):
+            # (only when the tree still contains an aligned store at all: the control shows that such stores reach the alignment rule)
             ctx.control('16-byte aligned raw store into a local is seen (%s)' % cfg, control_align_store, '_mm_store_ps into Align16 temporaries')
     ctx.extra['exhaustive'] = True
     ctx.extra['rule_text'] = 'instances = every reachable non-generic fn (R-PANIC) and every such fn performing raw/pointer memory accesses (R-BOUNDS)'
